@@ -226,6 +226,22 @@ fn on_enum(inp: &mut syn::DeriveInput) -> syn::Result<proc_macro2::TokenStream> 
 
     let tag = decode_tag(&enum_attrs);
 
+    // An unknown variant in an optional field is skipped by the enclosing
+    // type, which expects the variant's value to be still unread. An index-only
+    // enum consists of nothing but the index, so it has to be handed back.
+    let unknown = if index_only {
+        quote! {
+            n => {
+                __d777.set_position(__p778);
+                Err(minicbor::decode::Error::unknown_variant(n).at(__p778))
+            }
+        }
+    } else {
+        quote! {
+            n => Err(minicbor::decode::Error::unknown_variant(n).at(__p778))
+        }
+    };
+
     Ok(quote! {
         impl #impl_generics minicbor::Decode<'bytes, Ctx> for #name #typ_generics #where_clause {
             fn decode(__d777: &mut minicbor::Decoder<'bytes>, __ctx777: &mut Ctx) -> core::result::Result<#name #typ_generics, minicbor::decode::Error> {
@@ -233,7 +249,7 @@ fn on_enum(inp: &mut syn::DeriveInput) -> syn::Result<proc_macro2::TokenStream> 
                 #check
                 match __d777.u32()? {
                     #(#rows)*
-                    n => Err(minicbor::decode::Error::unknown_variant(n).at(__p778))
+                    #unknown
                 }
             }
         }
